@@ -288,6 +288,9 @@ def c05(chk):
                               {"config": cfg, "cutoff": cutoff, "program": short(it["hist"]), "hist": it["hist"],
                                "info": "prepared block off by %.3g, residual correlation %.3g (slack %.3g)" % (dblock, cross, s2)})
     run_models(chk, chk.tier, want)
+    # direction B: arbitrary float parameters, relational laws judged by TLC on quantised observations
+    from . import p_rel
+    p_rel.float_programs(chk, {"TargetsOnly", "PrepUncorrelated"})
 
 
 # ---- C07 ----------------------------------------------------------------------------------------------
@@ -357,6 +360,8 @@ def c07(chk):
             chk.violation(clause, f, dict(det, value=val))
     cat_programs(chk, judge)
     fock_loss(chk, "TraceLostWithoutTruncation")
+    from . import p_rel
+    p_rel.float_programs(chk, {"Physical", "PassiveKeepsPhotons", "UnitaryKeepsPurity", "LossNoGain"})
     # purity / global uncertainty on the model itself (2-mode instance, exact determinants)
     chk.tlc("MC_Gauss", constants={"N": 2, "Depth": 2 if chk.tier == "quick" else 3, "AlphaId": "q" if chk.tier == "quick" else "d",
                                    "PrefixId": "e2", "KNum": 1, "KDen": 1, "EMIT": False},
